@@ -153,26 +153,29 @@ def ffmod (x y : Num) : Num :=
     if b == 0 then .nan
     else fltSigned (a - (truncRat (a / b) : Rat) * b) x.signNeg
 
-/-- `math.FMA(x, y, z)`: `x·y + z` with one rounding -/
-def ffma (x y z : Num) : Num :=
-  if x.isNaN || y.isNaN || z.isNaN then .nan else
+/-- `math.FMA(x, y, z)`: `x·y + z` with one rounding. `none` in the one corner where Go's result
+    depends on the CPU: a non-zero product that underflows to zero added to a zero of the other
+    sign (the FMA instruction gives the product's sign, Go's software fallback `x*y + z` gives +0). -/
+def ffma (x y z : Num) : Option Num :=
+  if x.isNaN || y.isNaN || z.isNaN then some .nan else
   let pneg := x.signNeg != y.signNeg
   match x.toRat?, y.toRat? with
   | some a, some b =>
     match z.toRat? with
-    | none => z
+    | none => some z
     | some c =>
       if a * b == 0 then
         -- an exact (signed) zero product: IEEE addition of zeros
-        if c == 0 then (if pneg && z.signNeg then .nzero else .flt 0) else z
-      else if a * b + c == 0 then .flt 0
-      else roundRat (a * b + c)
+        if c == 0 then some (if pneg && z.signNeg then .nzero else .flt 0) else some z
+      else if c == 0 && (roundRat (a * b)).isZeroF && (pneg != z.signNeg) then none
+      else if a * b + c == 0 then some (.flt 0)
+      else some (roundRat (a * b + c))
   | a?, b? =>
     -- an infinite factor
-    if a? == some 0 || b? == some 0 then .nan
+    if a? == some 0 || b? == some 0 then some .nan
     else match z with
-      | .inf s => if s == pneg then .inf s else .nan
-      | _ => .inf pneg
+      | .inf s => if s == pneg then some (.inf s) else some .nan
+      | _ => some (.inf pneg)
 
 /-- `funcIsnormal`: exponent bits neither 0 nor 0x7ff -/
 def fisnormal : Num → Bool
